@@ -156,7 +156,10 @@ func (e *ResourceUpdateExecutorImpl) LeveledUpdateBatch(updaters [][]ResourceUpd
 	}
 
 	for i := len(updaters) - 1; i >= 0; i-- {
-		for _, updater := range updaters[i] {
+		// walk every level backwards as well: a level may list a cgroup before its own children
+		// (e.g. kubepods before kubepods/burstable), and the children must reach their target first
+		for j := len(updaters[i]) - 1; j >= 0; j-- {
+			updater := updaters[i][j]
 			if !e.needUpdate(updater) {
 				continue
 			}
